@@ -13,7 +13,7 @@ import random
 from fractions import Fraction
 from types import SimpleNamespace as NS
 
-from . import gen, sim, tlc
+from . import downstream, gen, sim, tlc
 from .common import Guard, MachineryFailure, Result, bind_repo, rat, rats, seed
 
 
@@ -28,6 +28,10 @@ PROTECTED = ('tprod', 'pump', 'hext', 'hextkwh', 'pumpkwh', 'remaining', 'hprod'
 
 
 def project(stage, model, ctx):
+    try:
+        downstream.observe(stage, model, ctx)      # Downstream.tla (beyond the listed properties): add-ons and S-DAC-GT
+    except Exception as ex:  # noqa: BLE001
+        ctx['ds_error'] = f'{type(ex).__name__}: {ex}'
     if stage == 'calculated' and ctx.get('c02'):
         try:
             fin = snapshot(model)
@@ -191,6 +195,28 @@ def build_jobs(tier: str) -> list:
         else:
             p['Do S-DAC-GT Calculations'] = 'True'
         jobs.append((f'downstream{k}:eu{eu}/pt{pt}', gen.to_text(p)))
+    # Downstream.tla (beyond the listed properties): every end-use class with add-ons alone, S-DAC-GT alone and both (the order in which
+    # the two modules change the series matters), S-DAC-GT figures away from their defaults, several construction years without add-ons
+    sdac_ranges = {'WACC': (3, 15), 'S-DAC-GT CAPEX': (500, 2500), 'S-DAC-GT OPEX': (30, 150), 'S-DAC-GT Electrical Energy': (150, 400),
+                   'S-DAC-GT Thermal Energy': (800, 2500), 'S-DAC-GT CAPEX Multiplier': (0.5, 2), 'S-DAC-GT OPEX Multiplier': (0.5, 2),
+                   'S-DAC-GT Thermal Energy Multiplier': (0.7, 1.5), 'S-DAC-GT CO2 Transportation Cost': (1, 30),
+                   'S-DAC-GT CO2 Storage Cost': (5, 30), 'S-DAC-GT CO2 Percent Energy Devoted To Process': (0.1, 1.0),
+                   'S-DAC-GT Natural Gas Price': (1, 20), 'S-DAC-GT CO2 Intensity of Electricity': (0.1, 0.9)}
+    for k, (eu, pt) in enumerate([(2, 5), (2, 9), (1, 1), (1, 4), (31, 2), (32, 3), (41, 1), (42, 4), (51, 2), (52, 1)] * (1 if tier == 'quick' else 4)):
+        for mode in ('a', 's', 'as'):
+            p = gen.base(rng, rng.choice([4, 3]), eu, pt, (k % 3) + 1, lifetime=rng.choice([3, 7, 12, 25]), steps=rng.choice([1, 2, 4]))
+            gen.add_prices(p, rng)
+            if 'a' in mode:
+                gen.add_addons(p, rng, rng.choice([1, 2, 3]))
+                p['AddOn Heat Gained 1'] = gen.fmt(rng.uniform(1e5, 5e7))
+                p['AddOn Electricity Gained 1'] = gen.fmt(rng.uniform(1e5, 5e7))
+                p['AddOn Profit Gained 1'] = gen.fmt(rng.uniform(0, 3))
+            if 's' in mode:
+                p['Do S-DAC-GT Calculations'] = 'True'
+                for name in rng.sample(sorted(sdac_ranges), rng.randint(0, 6)):
+                    lo, hi = sdac_ranges[name]
+                    p[name] = gen.fmt(rng.uniform(lo, hi))
+            jobs.append((f'ds{k}{mode}:eu{eu}/pt{pt}', gen.to_text(p)))
     return jobs
 
 
@@ -213,6 +239,7 @@ def validate(res: Result, out: list) -> dict:
         t['tid'] = k + 1
         traces.append(t)
         meta[t['tid']] = o
+    downstream.validate(res, out)
     verdicts, ds, gs = tlc.validate_traces('TraceEnergy', 'TraceEnergy.cfg', traces)
     res.states += ds
     res.transitions += gs
@@ -262,6 +289,15 @@ def run(tier: str) -> int:
         raise MachineryFailure('no vectors dumped')
     res.add_mc(d, f'Dump_Energy_{tier}.cfg (M2 vector generation)')
     replay_vectors(res, vectors)
+    # Downstream.tla (beyond the listed properties): add-ons, then S-DAC-GT, then the revenue loop, on the plant's annual series
+    dsm = tlc.run_tlc('Downstream', 'MC_Downstream.cfg', workers=8)
+    tlc.check_mc(dsm, 'MC_Downstream.cfg', ['AddOns', 'SdacYear', 'SdacDeduct', 'Revenue'])
+    if dsm['violated']:
+        raise MachineryFailure(f'Downstream.tla violates {dsm["violated"]}')
+    res.add_mc(dsm, 'MC_Downstream.cfg (add-ons / S-DAC-GT between surface plant and revenue; beyond the listed properties)')
+    dsn = tlc.run_tlc('Downstream', 'MC_Downstream_negative.cfg', workers=8, coverage=False)
+    if dsn['violated'] != 'NeverNegative':       # reachability witness: capture can consume more than a year produced
+        raise MachineryFailure(f'Downstream.tla: NeverNegative expected to be violated (reachability), got {dsn["violated"]}')
     out = sim.run_many(build_jobs(tier), 'harness.c02:project')
     counts = validate(res, out)
     need = ['C02_extract', 'C02_net', 'C02_useful_heat', 'C02_useful_heatpump', 'C02_useful_cooling', 'C02_conservation_elec',
